@@ -10,6 +10,7 @@ for d in seeded/C*/; do
   if ! git -C /repo apply "/verif/$d/patch.diff" 2>/dev/null; then echo "$sid PATCH-DOES-NOT-APPLY"; continue; fi
   out=$(./check $checks $TIER 2>&1); rc=$?
   nv=$(echo "$out" | grep -c "^VIOLATION")
+  mkdir -p /root/seedlogs; echo "$out" | grep -v "^KNOWN" | cut -c1-400 > /root/seedlogs/$sid.log
   git -C /repo checkout -- .
   echo "$sid $checks exit=$rc violations=$nv"
 done
